@@ -227,8 +227,24 @@ def check(ctx):
         opts = {p_ for p_ in list(f.params) + list(f.kwonly) if p_.startswith(("max_", "truncate_")) or p_ in ("width", "n")}
         if not opts:
             continue
+        _par = {ch: pa for pa in ast.walk(f.node) for ch in ast.iter_child_nodes(pa)}
+
+        def _finite_here(node):
+            # the conversion sits under a test that the option is an integer type / finite: inf never reaches it
+            p_ = node
+            while p_ in _par:
+                q_ = _par[p_]
+                if isinstance(q_, ast.If) and any(p_ is b or any(p_ is w for w in ast.walk(b)) for b in q_.body):
+                    t_ = norm(q_.test)
+                    if ("isinstance(" in t_ and "float" not in t_) or "isfinite" in t_ or "inf" in t_:
+                        return True
+                p_ = q_
+            return False
         for _f, c in calls_in(f, False):
             if norm(c.func) == "int" and c.args and any(isinstance(y, ast.Name) and y.id in opts for y in ast.walk(c.args[0])):
+                if _finite_here(c):
+                    ctx.ob("GRD-num", f, norm(c)[:60], c, True, "the conversion is reached only for integer-typed / finite limits", clause="never raises")
+                    continue
                 ctx.ob("GRD-num", f, norm(c)[:60], c, False,
                        f"`{norm(c)[:50]}` raises OverflowError when the limit is math.inf (no limit), which the comparison-based code accepts",
                        clause="never raises")
